@@ -397,8 +397,10 @@ class Index:
                 if len(ib) != 2 or not isinstance(ib[1], ast.Return) or not isinstance(ib[1].value, ast.Name) or ib[1].value.id != par:
                     continue
                 a = ib[0]
-                if not (isinstance(a, ast.Assign) and len(a.targets) == 1 and isinstance(a.targets[0], ast.Subscript) and isinstance(a.targets[0].value, ast.Name)
-                        and isinstance(a.value, ast.Name) and a.value.id == par):
+                if not (isinstance(a, ast.Assign) and len(a.targets) == 1 and isinstance(a.targets[0], ast.Subscript) and isinstance(a.targets[0].value, ast.Name)):
+                    continue
+                # the stored value: the decorated object itself, or an expression of it and the factory's arguments (`Rule(f, cap=cap)`)
+                if any(isinstance(x, (ast.Lambda, ast.NamedExpr, ast.Yield, ast.Await, ast.ListComp, ast.SetComp, ast.DictComp, ast.GeneratorExp)) for x in ast.walk(a.value)):
                     continue
                 tname = a.targets[0].value.id
                 tdefs = m.defs.get(tname, [])
@@ -412,22 +414,32 @@ class Index:
                 if len(writes) != 1 or calls:
                     continue
                 fparams = [x.arg for x in fn.args.args]
+                fdefaults = dict(zip(fparams[len(fparams) - len(fn.args.defaults):], fn.args.defaults))
                 keys, vals = [], []
                 for d in m.tree.body:
                     if not isinstance(d, (ast.ClassDef, ast.FunctionDef)):
                         continue
                     mine = [dc for dc in d.decorator_list if isinstance(dc, ast.Call) and isinstance(dc.func, ast.Name) and dc.func.id == fn.name
-                            and not dc.keywords and len(dc.args) == len(fparams) and not any(isinstance(x, ast.Starred) for x in dc.args)]
+                            and len(dc.args) <= len(fparams) and not any(isinstance(x, ast.Starred) for x in dc.args) and all(k.arg in fparams for k in dc.keywords)]
+                    okd = []
                     for dc in reversed(mine):
                         bind = dict(zip(fparams, dc.args))
+                        bind.update({k.arg: k.value for k in dc.keywords})
+                        for fp in fparams:
+                            if fp not in bind and fp in fdefaults:
+                                bind[fp] = fdefaults[fp]
+                        if set(bind) != set(fparams):
+                            continue
+                        bind[par] = ast.Name(id=d.name, ctx=ast.Load())
 
                         class _S3(ast.NodeTransformer):
                             def visit_Name(self_, x):
                                 return copy.deepcopy(bind[x.id]) if x.id in bind else x
                         keys.append(ast.copy_location(_S3().visit(copy.deepcopy(a.targets[0].slice)), d))
-                        vals.append(ast.copy_location(ast.Name(id=d.name, ctx=ast.Load()), d))
-                    if mine:
-                        d.decorator_list = [dc for dc in d.decorator_list if dc not in mine]
+                        vals.append(ast.copy_location(_S3().visit(copy.deepcopy(a.value)), d))
+                        okd.append(dc)
+                    if okd:
+                        d.decorator_list = [dc for dc in d.decorator_list if dc not in okd]
                 if keys:
                     tdefs[0].value = ast.copy_location(ast.Dict(keys=keys, values=vals), tdefs[0].value)
                     ast.fix_missing_locations(tdefs[0])
